@@ -42,7 +42,7 @@ def gen_huge_plan(rng):
 def gen_plan(rng, tier, idx, opts):
     if rng.random() < opts.get("p_huge", 0.0015):
         return gen_huge_plan(rng)
-    L = rng.choice([1, 2, 4, 8, 8, 16])
+    L = rng.choice([1, 2, 3, 4, 5, 7, 8, 8, 16])
     shape = rng.choice([None, None, 1, 2, 3, [2, 2], [3, 2], [1, 4]])
     nshape = 1 if shape is None else int(np.prod(shape))
     r = rng.random()
